@@ -7,7 +7,7 @@ PROP = {
     "n_thorough": 600000,
     "harness_timeout": 3000,
     "trusted": [
-        "harness/cmd/c02: byte-string generator (valid encodings from harness/cmd/c01/s2t, mutations, truncations, length-field rewrites, non-canonical length fields, nesting 62..66 and 100, hostile length claims, allocation-amplifying nests, random strings); runtime.MemStats.TotalAlloc around secs2.Decode as the allocation observation",
+        "harness/cmd/c02: byte-string generator (valid encodings from harness/cmd/c01/s2t, mutations, truncations, length-field rewrites, non-canonical length fields, nesting 62..66 and 100, hostile length claims, allocation-amplifying nests, random strings; payload classes the library encoder never emits — Boolean bytes 0x02..0xFF, text bytes >= 0x80, NaN payloads, negative zero, all-ones — for lengths 1/2/3/many, alone and in lists) and an independent reference decoder of VALUES (refTree) compared with the accessors of the decoded item; runtime.MemStats.TotalAlloc around secs2.Decode as the allocation observation",
         "ocaml/c02_driver.ml: case-line parser; compares status, consumed length, decoded tree, runs the instrumented twin (inputs up to 1200 bytes) and the allocation accounting",
     ],
     "assumptions": [
